@@ -878,5 +878,5 @@ var _ = json.Marshal
 
 var engines = map[string]kernel.Engine{
 	"C01": runChain, "C02": runChain, "C10": runChain, "C14": runChain, "C15": runChain,
-	"C27": runCrash, "C06": runChain, "C09": runChain, "C53": runGenesis,
+	"C27": runCrash, "C06": runChain, "C09": runChain, "C53": runGenesis, "C12": runPackages,
 }
